@@ -131,6 +131,7 @@ func mainConc(args []string) int {
 	seed := fs.Int64("seed", 1, "seed of jitter and spelling")
 	reps := fs.Int("reps", 1, "executions of every program (different jitter)")
 	limit := fs.Int("stuck-ticks", 600, "5 ms ticks of running time without any recorded step after which a wait is given up")
+	maxStuck := fs.Int("max-stuck", 3, "stop after this many runs in which a wait was given up (their goroutines are lost)")
 	if err := fs.Parse(args); err != nil || *upath == "" || *ppath == "" || *out == "" {
 		return 2
 	}
@@ -146,13 +147,13 @@ func mainConc(args []string) int {
 	}
 	tk := newTicks()
 	defer tk.stop()
-	runNo, stuck, calls := 0, 0, 0
+	runNo, stuck, calls, stuckRuns := 0, 0, 0, 0
 	err = vcommon.ReadLines(*ppath, func(raw json.RawMessage) error {
 		var p Program
 		if e := json.Unmarshal(raw, &p); e != nil {
 			return e
 		}
-		for rep := 0; rep < *reps; rep++ {
+		for rep := 0; rep < *reps && stuckRuns < *maxStuck; rep++ {
 			runNo++
 			lines := runProgram(u, p, *seed+int64(rep)*7919, tk, *limit)
 			for _, l := range lines {
@@ -162,6 +163,9 @@ func mainConc(args []string) int {
 			}
 			s, e := writeRun(w, runNo, fmt.Sprintf("%s#%d", p.ID, rep), p.Mode, lines)
 			stuck += s
+			if s > 0 {
+				stuckRuns++
+			}
 			if e != nil {
 				return e
 			}
